@@ -13,7 +13,7 @@ import conv
 import gen as G
 import exercises as E
 
-NEW_KINDS = ['compare', 'file_dfa_dfa', 'file_nfa_nfa', 'file_re_re', 'file_re_dfa', 'file_dfa_nfa', 'accrej_dfa', 'words_cfg', 'given_dfa', 'given_nfa']
+NEW_KINDS = ['compare', 'file_pda_pda', 'file_dfa_dfa', 'file_nfa_nfa', 'file_re_re', 'file_re_dfa', 'file_dfa_nfa', 'accrej_dfa', 'words_cfg', 'given_dfa', 'given_nfa']
 KINDS = E.KINDS + NEW_KINDS
 STREAM = E.STREAM
 
@@ -21,7 +21,7 @@ STREAM = E.STREAM
 def gen_cases(rng, n_per_kind, n_perturb):
     cases = E.gen_cases(rng, n_per_kind, n_perturb)
     for kind in NEW_KINDS:
-        if kind == 'compare':
+        if kind in ('compare', 'file_pda_pda'):
             continue
         for _ in range(n_per_kind):
             c = {'ex': kind, 'seed': rng.randrange(10 ** 9), 'perturb': n_perturb, 'length': rng.choice([3, 4])}
@@ -36,6 +36,10 @@ def gen_cases(rng, n_per_kind, n_perturb):
             else:
                 c['G'] = E.nondegenerate_cfg(rng) if rng.random() < 0.5 else chomsky_shaped_cfg(rng)
             cases.append(c)
+    # language from a reference file for PDAs with the bound 6: the reference is a^n b^n, one answer accepts only the words up to length 4
+    for _ in range(max(2, n_per_kind // 4)):
+        cases.append({'ex': 'file_pda_pda', 'seed': rng.randrange(10 ** 9), 'perturb': min(n_perturb, 2), 'length': 6,
+                      'names': rng.choice([['q1', 'q2', 'q3', 'q4'], ['A', 'B', 'C', 'D'], ['s', 't', 'u', 'v']]), 'eps': rng.choice(['_', 'ε'])})
     # compare_languages itself on small word sets built in a given insertion order (the reported word is picked from a Python set)
     pool = ['', 'a', 'b', 'c', 'aa', 'ab', 'ba', 'cc', 'abc']
     for _ in range(40 * n_per_kind):
@@ -103,7 +107,21 @@ def observe(c):
     length = c['length']
     info = {}
     try:
-        if ex.startswith('file_'):
+        if ex == 'file_pda_pda':
+            from gambatools.pda_algorithms import parse_pda
+            q1, q2, q3, q4 = c['names']
+            e = c['eps']
+            rtext = '\n'.join(['states %s %s %s %s' % (q1, q2, q3, q4), 'initial ' + q1, 'final %s %s' % (q1, q4), 'input_symbols a b', 'stack_symbols x $', 'epsilon ' + e,
+                               '%s %s %s,%s$' % (q1, q2, e, e), '%s %s a,%sx' % (q2, q2, e), '%s %s b,x%s' % (q2, q3, e), '%s %s b,x%s' % (q3, q3, e), '%s %s %s,$%s' % (q3, q4, e, e)])
+            f = wfile('ref.pda', rtext)
+            own = rtext
+            short = '\n'.join(['states s0 s1 s2 s3 s4 s5', 'initial s0', 'final s0 s2 s5', 'input_symbols a b', 'stack_symbols x', 'epsilon ' + e,
+                               's0 s1 a,%s%s' % (e, e), 's1 s2 b,%s%s' % (e, e), 's1 s3 a,%s%s' % (e, e), 's3 s4 b,%s%s' % (e, e), 's4 s5 b,%s%s' % (e, e)])
+            check = lambda a: E.run_checker(NB.check_pda_language_from_file, a, f, length)
+            parse = lambda a: conv.pda_case(parse_pda(a))
+            info['ref'] = conv.pda_case(parse_pda(rtext))
+            info['extra_answers'] = [short]
+        elif ex.startswith('file_'):
             _, ak, rk = ex.split('_')        # answer kind, reference kind
             if rk == 'dfa':
                 rtext = print_dfa(conv.dfa_obj(c['D']))
@@ -185,7 +203,7 @@ def observe(c):
                 return {'ok': bool(r[1].get('correct')), 'out': str(r[1].get('feedback', ''))[:300], 'raised': None}
     except Exception as e:
         return {'answers': [], 'setup_error': '%s: %s' % (type(e).__name__, e), 'info': info}
-    answers = [{'text': own, 'own': True}]
+    answers = [{'text': own, 'own': True}] + [{'text': t, 'own': False} for t in info.get('extra_answers', [])]
     for _ in range(c['perturb']):
         t = own
         for _ in range(rng.choice([1, 1, 1, 2])):
@@ -229,19 +247,19 @@ def observe(c):
 # ----------------------------------------------------------------------------- encoding
 def _sy():
     sy = L.Names()
-    for ch in 'abc':
+    for ch in 'abc_':
         sy(ch)
     return sy
 
 
 def _dfa_opt(X, sy, st=None):
-    if X is None or not all(len(s) == 1 and s in 'abc' for s in X['Sigma']):
+    if X is None or not all(len(s) == 1 and s in 'abc_' for s in X['Sigma']):
         return None
     return L.dfa(X, st or L.state_names(X), sy)
 
 
 def _nfa_opt(X, sy, st=None):
-    if X is None or not all(len(s) == 1 and s in 'abc' for s in X['Sigma']) or not all(e[1] in ('a', 'b', 'c') or e[1] == X['eps'] for e in X['delta']):
+    if X is None or not all(len(s) == 1 and s in 'abc_' for s in X['Sigma']) or not all(e[1] in ('a', 'b', 'c', '_') or e[1] == X['eps'] for e in X['delta']):
         return None
     st = st or L.state_names(X)
     f = lambda x: 90 if x == X['eps'] else sy(x)
@@ -251,7 +269,7 @@ def _nfa_opt(X, sy, st=None):
 
 def _undecidable(X):
     """answers that parse but are outside the model's word representation (symbols of several characters)"""
-    if isinstance(X, dict) and 'Sigma' in X and 'R' not in X and any(len(sx) != 1 or sx not in 'abc' for sx in X['Sigma']):
+    if isinstance(X, dict) and 'Sigma' in X and 'R' not in X and any(len(sx) != 1 or sx not in 'abc_' for sx in X['Sigma']):
         return True
     if isinstance(X, dict) and 'delta' in X and 'eps' in X and any(len(e[1]) != 1 and e[1] != X['eps'] for e in X['delta']):
         return True
@@ -268,6 +286,13 @@ def _lang_term(kind, X, n, sy, c=None):
         return None if d is None else '(nfa_words %s %d)' % (d, n)
     if kind == 're':
         return '(Some (re_words %s %d))' % (L.re(X), n) if X is not None and E._re_ok(X) else None
+    if kind == 'pda':
+        if X is None or not all(len(a) == 1 and a in 'abc_' for a in X['Sigma']) or X['eps'] in X['Sigma']:
+            return None
+        f = lambda a: 90 if a == X['eps'] else (sy(a) if a in X['Sigma'] else 100 + sorted(X['Gamma']).index(a))
+        if len(X['Q']) > 30:
+            return None
+        return "(let '(l0, tr0) := pda_words pick_head %s 2000 %d in if tr0 then None else Some l0)" % (L.pda(X, L.state_names(X), f), n)
     if kind == 'cfg':
         if X is None:
             return None
@@ -298,6 +323,15 @@ def encode_answer(c, o, a, must_ok_for_own=True):
         return '0'
     if ex == 'compare':
         return 'j_lang_eq (Some %s) (Some %s) %s false 10' % (E._words(c['A1'], sy), E._words(c['A2'], sy), p)
+    if ex == 'file_pda_pda':
+        if X is None:
+            return 'unparsed %s %s 120' % (p, m)
+        if any(a not in X['Sigma'] + X['Gamma'] + [X['eps']] for t in X['delta'] for a in (t[1], t[2], t[4])):
+            return '0'
+        A1, A2 = _lang_term('pda', X, n, sy), _lang_term('pda', info['ref'], n, sy)
+        if A1 is None or A2 is None:
+            return '0'
+        return 'j_lang_eq %s %s %s %s 120' % (A1, A2, p, m)
     if ex.startswith('file_') or ex in ('given_dfa', 'given_nfa', 'words_cfg'):
         if ex.startswith('file_'):
             _, ak, rk = ex.split('_')
@@ -376,6 +410,8 @@ def encode_feedback(c, o, a):
         A1 = _lang_term('dfa', X, n, sy)          # product state names are plain strings here: only the language matters
         d1, d2 = _lang_term('dfa', c['D1'], n, sy), _lang_term('dfa', c['D2'], n, sy)
         A2 = None if d1 is None or d2 is None else '(match %s, %s with Some x, Some y => Some (%s x y) | _, _ => None end)' % (d1, d2, op)
+    elif ex == 'file_pda_pda':
+        A1, A2 = _lang_term('pda', X, n, sy), _lang_term('pda', info['ref'], n, sy)
     elif ex.startswith('file_'):
         _, ak, rk = ex.split('_')
         A1 = _lang_term(ak, X, n, sy)
